@@ -1638,6 +1638,85 @@ func runGate(in []string) (out []string) {
 
 const gateGrace = 25 * time.Millisecond
 
+// runLoad: LOADB|LOADM <tree> <traffic> <T>x<N>
+// T goroutines each send the failing message N times, nothing else runs;
+// after the join the verifiers must hold EXACTLY T*N errors per verifier the
+// message fails (none lost to a concurrent append, none twice).
+func runLoad(in []string) (out []string) {
+	defer func() {
+		if r := recover(); r != nil {
+			out = append(out, "PANIC")
+		}
+	}()
+	if len(in) != 4 {
+		return []string{"BADCASE"}
+	}
+	tree, err := parseTree(in[1])
+	if err != nil {
+		return []string{"BADCASE"}
+	}
+	m, err := parseMessage(in[2], 2)
+	if err != nil {
+		return []string{"BADCASE"}
+	}
+	var nt, ni int
+	if _, err := fmt.Sscanf(in[3], "%dx%d", &nt, &ni); err != nil || nt < 1 || nt > 64 || ni < 1 || ni > 100000 {
+		return []string{"BADCASE"}
+	}
+	s, st := newSystem(tree, in[0] == "LOADB")
+	defer s.close()
+	out = append(out, "CFG="+st)
+	if s == nil {
+		return out
+	}
+	req0, res0, err := m.build()
+	if err != nil {
+		return []string{"BADCASE"}
+	}
+	out = append(out, s.bits(m, req0, res0))
+	var wg sync.WaitGroup
+	var panicked int32
+	start := make(chan struct{})
+	for t := 0; t < nt; t++ {
+		wg.Add(1)
+		go func() {
+			defer wg.Done()
+			defer func() {
+				if r := recover(); r != nil {
+					atomic.StoreInt32(&panicked, 1)
+				}
+			}()
+			req, res, _ := m.build()
+			<-start
+			for i := 0; i < ni; i++ {
+				s.send(m, req, res)
+			}
+		}()
+	}
+	close(start)
+	wg.Wait()
+	if atomic.LoadInt32(&panicked) == 1 {
+		return append(out, "PANIC")
+	}
+	var texts []string
+	if s.reqv != nil {
+		texts = append(texts, errTexts(s.reqv.VerifyRequests())...)
+	}
+	if s.resv != nil {
+		texts = append(texts, errTexts(s.resv.VerifyResponses())...)
+	}
+	seen := map[string]bool{}
+	var distinct []string
+	for _, t := range texts {
+		if !seen[t] {
+			seen[t] = true
+			distinct = append(distinct, t)
+		}
+	}
+	out = append(out, fmt.Sprintf("COUNT=%d", len(texts)), "FQ="+s.canon(distinct))
+	return out
+}
+
 // stressStall is the watchdog of one STRESS case: when neither a message nor a
 // query has completed for this long the case is a lock-up (observation LOCKUP
 // instead of a hanging harness).  Progress, not total time, is watched, so a
@@ -1781,6 +1860,8 @@ func runCase(in []string) []string {
 		return runGate(in)
 	case "STRESSM", "STRESSB":
 		return runStress(in)
+	case "LOADM", "LOADB":
+		return runLoad(in)
 	}
 	return []string{"BADCASE"}
 }
@@ -1867,7 +1948,11 @@ func childMain() {
 			continue
 		}
 		before := size()
-		out := runCaseWatchdog(cs.In, caseTimeout)
+		limit := caseTimeout
+		if len(cs.In) > 0 && isLoad(cs.In[0]) {
+			limit = 10 * caseTimeout // volume, possibly race-instrumented: STRESS has its own progress watchdog
+		}
+		out := runCaseWatchdog(cs.In, limit)
 		if raceEnabled {
 			out = append(out, "RACEDET=on")
 		} else {
@@ -1884,6 +1969,7 @@ func childMain() {
 		cs.Out = out
 		w.WriteString(cs.Line())
 		w.WriteByte('\n')
+		w.Flush() // a later case may take the whole process down
 	}
 }
 
@@ -1918,7 +2004,7 @@ func raceBinary() string {
 }
 
 // runChild runs the CONC cases in a child process and returns their outputs.
-func runChild(bin string, cases []hx.Case) (map[string][]string, error) {
+func runChild(bin string, cases []hx.Case, race bool) (map[string][]string, error) {
 	tmp, err := os.MkdirTemp("", "c13race")
 	if err != nil {
 		return nil, err
@@ -1930,8 +2016,13 @@ func runChild(bin string, cases []hx.Case) (map[string][]string, error) {
 	}
 	cmd := exec.Command(bin, "-extra", "child")
 	logp := filepath.Join(tmp, "race")
-	cmd.Env = append(os.Environ(), "C13_RACE_LOG="+logp,
-		"GORACE=halt_on_error=0 exitcode=0 atexit_sleep_ms=0 log_path="+logp)
+	cmd.Env = os.Environ()
+	if race {
+		cmd.Env = append(cmd.Env, "C13_RACE_LOG="+logp,
+			"GORACE=halt_on_error=0 exitcode=0 atexit_sleep_ms=0 log_path="+logp)
+	} else {
+		cmd.Env = append(cmd.Env, "GORACE=halt_on_error=0 exitcode=0 atexit_sleep_ms=0 log_path="+filepath.Join(tmp, "ignored"))
+	}
 	cmd.Stdin = &inbuf
 	var outbuf, errbuf bytes.Buffer
 	cmd.Stdout = &outbuf
@@ -1941,16 +2032,29 @@ func runChild(bin string, cases []hx.Case) (map[string][]string, error) {
 	}
 	done := make(chan error, 1)
 	go func() { done <- cmd.Wait() }()
+	crashed := ""
 	select {
 	case err := <-done:
 		if err != nil {
-			return nil, fmt.Errorf("child: %v: %s", err, errbuf.String())
+			// the code under test took the process down (Go runtime fatal error: not recoverable)
+			crashed = "exit"
+			for _, l := range strings.Split(errbuf.String(), "\n") {
+				if strings.HasPrefix(l, "fatal error:") || strings.HasPrefix(l, "panic:") || strings.Contains(l, "unexpected signal") {
+					crashed = l
+					break
+				}
+			}
 		}
 	case <-time.After(30 * time.Minute):
 		cmd.Process.Kill()
 		return nil, fmt.Errorf("child timed out")
 	}
 	res := map[string][]string{}
+	defer func() {
+		if crashed != "" {
+			res["\x00crashed"] = []string{crashed}
+		}
+	}()
 	sc := bufio.NewScanner(&outbuf)
 	sc.Buffer(make([]byte, 1<<20), 1<<28)
 	for sc.Scan() {
@@ -1961,9 +2065,57 @@ func runChild(bin string, cases []hx.Case) (map[string][]string, error) {
 	return res, nil
 }
 
+// runChildren runs cases in child processes of bin; when the code under test
+// takes a child down, the case in flight gets the observation CRASH and a new
+// child continues with the rest.
+func runChildren(bin string, cases []hx.Case, race bool) (map[string][]string, error) {
+	all := map[string][]string{}
+	rest := cases
+	for launches := 0; len(rest) > 0; launches++ {
+		if launches >= 6 {
+			for _, c := range rest {
+				all[c.Name] = []string{"BADCASE", "SKIPPED=after-crashes"}
+			}
+			break
+		}
+		res, err := runChild(bin, rest, race)
+		if err != nil {
+			return nil, err
+		}
+		crash, crashed := res["\x00crashed"]
+		i := 0
+		for ; i < len(rest); i++ {
+			out, ok := res[rest[i].Name]
+			if !ok {
+				break
+			}
+			all[rest[i].Name] = out
+		}
+		if i < len(rest) {
+			why := "child-ended-early"
+			if crashed {
+				why = crash[0]
+			}
+			all[rest[i].Name] = []string{"CFG=ok", "CRASH=" + hx.HexS(why)}
+			i++
+		}
+		rest = rest[i:]
+	}
+	return all, nil
+}
+
 func isConcurrent(kind string) bool {
 	switch kind {
 	case "CONC", "CONCB", "GATEM", "GATEB":
+		return true
+	}
+	return false
+}
+
+// load cases run in a plain (not race-instrumented unless the whole harness is) child
+func isLoad(kind string) bool {
+	switch kind {
+	case "STRESSM", "STRESSB", "LOADM", "LOADB":
 		return true
 	}
 	return false
@@ -2003,16 +2155,33 @@ func main() {
 		} else {
 			cfg.Count("race_detector=on")
 		}
-		res, err := runChild(bin, conc)
+		res, err := runChildren(bin, conc, true)
 		if err != nil {
 			fmt.Fprintln(os.Stderr, "c13:", err)
 			os.Exit(3)
 		}
 		concOut = res
 	}
+	var load []hx.Case
+	for _, c := range all {
+		if len(c.In) > 0 && isLoad(c.In[0]) {
+			load = append(load, c)
+		}
+	}
+	if len(load) > 0 {
+		self, _ := os.Executable()
+		res, err := runChildren(self, load, false)
+		if err != nil {
+			fmt.Fprintln(os.Stderr, "c13:", err)
+			os.Exit(3)
+		}
+		for k, v := range res {
+			concOut[k] = v
+		}
+	}
 	for _, c := range all {
 		var out []string
-		if len(c.In) > 0 && isConcurrent(c.In[0]) {
+		if len(c.In) > 0 && (isConcurrent(c.In[0]) || isLoad(c.In[0])) {
 			out = concOut[c.Name]
 			if out == nil {
 				out = []string{"CHILDLOST"}
